@@ -232,6 +232,22 @@ func runCheck(repo, root, prop, tier string, rebase, verbose bool) int {
 	var toolErrs []string
 	d := NewDischarger(timeout, thorough)
 	multiTags := len(cfg.Tags) > 1
+	skipSet, _ := loadBaseline(filepath.Join(root, "baseline", prop+".skip"))
+	if os.Getenv("GOVC_CLAIM_ALL") == "" && !rebase && !thorough && len(skipSet) > 0 {
+		d.Skip = func(id string) bool {
+			if skipSet[id] {
+				return true
+			}
+			if multiTags {
+				for _, tags := range cfg.Tags {
+					if skipSet["["+strings.Join(tags, ",")+"] "+id] {
+						return true
+					}
+				}
+			}
+			return false
+		}
+	}
 	if os.Getenv("GOVC_CLAIM_ALL") == "" && !rebase {
 		d.Claimed = func(id string) bool {
 			if baseline[id] {
@@ -377,7 +393,12 @@ func verifyOne(prog *Program, specs *Specs, key, tags string, d *Discharger, kno
 		}()
 		ur.res = VerifyUnitKnown(prog, specs, f, ct, UnitOpts{}, known)
 		ur.insts = d.DischargeUnit(ur.res)
-		// vacuity probe: with "assert false" at every exit, at least one exit must be reachable
+		// vacuity probe: with "assert false" at every exit, at least one exit must be reachable.
+		// Only assumptions can make a unit vacuous: skip the probe when there are none.
+		if !unitHasAssumptions(specs, f, ct) {
+			ur.probe = "n/a (no requires, no type invariant)"
+			return
+		}
 		pr := VerifyUnitKnown(prog, specs, f, ct, UnitOpts{ProbeExit: true}, nil)
 		pd := NewDischarger(1500, false)
 		pd.NoRace = true
@@ -394,6 +415,19 @@ func verifyOne(prog *Program, specs *Specs, key, tags string, d *Discharger, kno
 	}()
 	ur.ms = time.Since(t0).Milliseconds()
 	return ur
+}
+
+func unitHasAssumptions(specs *Specs, f *ssa.Function, ct *Contract) bool {
+	if ct != nil && len(ct.Requires) > 0 {
+		return true
+	}
+	x := &Exec{specs: specs}
+	for _, p := range f.Params {
+		if ts, _ := x.typeSpecOf(p.Type()); ts != nil && len(ts.Invs) > 0 {
+			return true
+		}
+	}
+	return false
 }
 
 func VerifyUnitKnown(prog *Program, specs *Specs, fn *ssa.Function, ct *Contract, opts UnitOpts, known []*KnownFinding) *UnitResult {
@@ -432,7 +466,15 @@ func report(root, prop, tier string, seed int, cfg *PropConfig, runs []*unitRun,
 		for _, l := range lines {
 			baseline[l] = true
 		}
-		fmt.Printf("rebased %s: %d claimed obligations\n", prop, len(lines))
+		var skips []string
+		for _, id := range ids {
+			if res[id].Status != "discharged" && !baseline[id] {
+				skips = append(skips, id)
+			}
+		}
+		shdr := "# obligations that did not discharge on the reviewed tree (unclaimed, undecided): not attempted in the quick tier, attempted in the thorough tier\n"
+		os.WriteFile(filepath.Join(root, "baseline", prop+".skip"), []byte(shdr+strings.Join(skips, "\n")+"\n"), 0o644)
+		fmt.Printf("rebased %s: %d claimed obligations, %d not attempted in quick\n", prop, len(lines), len(skips))
 	}
 	if os.Getenv("GOVC_CLAIM_ALL") != "" {
 		// triage mode: treat every obligation of the property as claimed
@@ -595,6 +637,7 @@ func report(root, prop, tier string, seed int, cfg *PropConfig, runs []*unitRun,
 		"solver_max_script_ms":     d.Stats.MaxMs,
 		"samples":                  samples,
 		"unclaimed_failing":        unclaimed,
+		"unclaimed_not_attempted_in_quick": sortedBoolKeys(d.Skipped),
 		"discharged_not_claimed":   undecidedNew,
 		"known_findings":           kfLines,
 		"aborted_paths":            abortNotes,
@@ -642,6 +685,15 @@ func report(root, prop, tier string, seed int, cfg *PropConfig, runs []*unitRun,
 }
 
 var clauseOblRe = regexp.MustCompile(` / (post|inv-preserved|inv-established|inv-init|inv-step|variant|frame|assert@[^ ]+) / `)
+
+func sortedBoolKeys(m map[string]bool) []string {
+	var ks []string
+	for k := range m {
+		ks = append(ks, k)
+	}
+	sort.Strings(ks)
+	return ks
+}
 
 func regexpCompile(s string) (*regexp.Regexp, error) { return regexp.Compile(s) }
 
